@@ -112,6 +112,40 @@ def history(t1, t2, t3, n, pa, pb, method, ir_idx, active):
         return True
 
 
+def shared_file(truth_i, other_i, st, active):
+    """ONE file holds the truth definition and a target of another kind and is passed under both options: it is the truth file,
+    so a sync that names it as truth must not modify it (and must not report it modified)"""
+    truth_i, other_i, st = realize((truth_i, other_i, st))
+    with untraced():
+        from harness.syncenv import IRS, STALE, render
+        from lib.fsstub import FS
+
+        truth, other = KINDS[truth_i], KINDS[other_i]
+        if truth == other:
+            return True
+        ir = IRS[0]()
+        text = render(truth, ir).rstrip("\n") + "\n"
+        if st == 1:
+            text += "\n\n" + render(other, STALE())
+        elif st == 2:
+            text += "\n\nX = 1\n"
+        shared = "/p/config.py"
+        third = [k for k in KINDS if k not in (truth, other)][0]
+        files = dict(FILES)
+        files[truth] = shared
+        files[other] = shared
+        fs = FS({shared: text})
+        for _ in range(2):
+            before = fs.snapshot()
+            w0 = len(fs.opened_w)
+            eff, out = run_sync(fs, truth, (truth, other), 0, files=files)
+            if fs.files[shared] != before[shared] or shared in fs.opened_w[w0:]:
+                return False
+            if eff.get(shared):
+                return False
+        return True
+
+
 def obligations(tier, seed):
     obs = []
     for m in (0, 1):
@@ -124,4 +158,8 @@ def obligations(tier, seed):
                 "combinations, 2 interface descriptions; exhaustive over the configuration table"
                 % (KINDS[t1], "method" if m else "top-level function", 2 if tier == "quick" else 3),
                 timeout=280 if tier == "quick" else 2400, path_timeout=120, funcs=FUNCS))
+    obs.append(Ob(name="shared_truth_file", params=[("t", "int"), ("o", "int"), ("st", "int")], pre=["0 <= t <= 2 and 0 <= o <= 2", "0 <= st <= 2"],
+                  body="H.shared_file(t, o, st, {ACTIVE})", witness=(1, 0, 1), kind="F",
+                  bounds="one file passed under the truth's option and under another kind's option (3 x 2 kind pairs), holding only the truth / "
+                  "also a stale definition of the other kind / other text; two runs", timeout=150, funcs=FUNCS))
     return obs
